@@ -445,14 +445,16 @@ pub fn eval(e: &E, env: &mut Env) -> R {
         }
         E::Select(x, f) => {
             let xv = eval(x, env)?;
-            if BUILTINS.contains(&f.as_str()) || env.hosts.contains_key(f) {
-                return Err(Stop::Unspec("field named like a function"));
-            }
+            let fn_named = BUILTINS.contains(&f.as_str()) || env.hosts.contains_key(f);
+            // an entry that is present wins over a function of the same name; only the absent
+            // case (a method value) is left open
             match &xv {
                 MV::Map(es) => match es.iter().find(|(k, _)| *k == MK::Str(f.clone())) {
                     Some((_, v)) => Ok(v.clone()),
+                    None if fn_named => Err(Stop::Unspec("absent field named like a function")),
                     None => Err(Stop::Err(EC::NoSuchKey)),
                 },
+                _ if fn_named => Err(Stop::Unspec("field named like a function on a non-map")),
                 _ => Err(Stop::Err(EC::NoSuchKey)),
             }
         }
